@@ -452,6 +452,7 @@ impl WriterBuilder {
             compression: self.codec,
             capacity: self.capacity,
             encoder,
+            failed: false,
         })
     }
 }
@@ -575,6 +576,8 @@ pub struct Writer<W: Write, F: AvroFormat> {
     compression: Option<CompressionCodec>,
     capacity: usize,
     encoder: RecordEncoder,
+    /// Set when writing to the sink failed, leaving the output incomplete
+    failed: bool,
 }
 
 /// Alias for an Avro **Object Container File** writer.
@@ -729,10 +732,12 @@ impl<W: Write, F: AvroFormat> Writer<W, F> {
                 "Schema of RecordBatch differs from Writer schema".to_string(),
             ));
         }
-        match self.format.sync_marker() {
+        self.check_not_failed()?;
+        let res = match self.format.sync_marker() {
             Some(&sync) => self.write_ocf_block(batch, &sync),
             None => self.write_stream(batch),
-        }
+        };
+        res.inspect_err(|e| self.failed = matches!(e, AvroError::IoError(_, _)))
     }
 
     /// A convenience method to write a slice of [`RecordBatch`].
@@ -747,6 +752,7 @@ impl<W: Write, F: AvroFormat> Writer<W, F> {
 
     /// Flush remaining buffered data and (for OCF) ensure the header is present.
     pub fn finish(&mut self) -> Result<(), AvroError> {
+        self.check_not_failed()?;
         self.writer
             .flush()
             .map_err(|e| AvroError::IoError(format!("Error flushing writer: {e}"), e))
@@ -755,6 +761,17 @@ impl<W: Write, F: AvroFormat> Writer<W, F> {
     /// Consume the writer, returning the underlying output object.
     pub fn into_inner(self) -> W {
         self.writer
+    }
+
+    /// Returns an error if an earlier write failed: the output ends part way through a
+    /// block or record, so nothing valid can follow it
+    fn check_not_failed(&self) -> Result<(), AvroError> {
+        if self.failed {
+            return Err(AvroError::General(
+                "Cannot write to Avro writer as an earlier write failed".to_string(),
+            ));
+        }
+        Ok(())
     }
 
     fn write_ocf_block(&mut self, batch: &RecordBatch, sync: &[u8; 16]) -> Result<(), AvroError> {
